@@ -421,12 +421,17 @@ fn child_odd_flags(fd: i32) -> i32 {
         (libc::SIGWINCH, libc::SA_RESETHAND | libc::SA_RESTART),
     ];
     let mut delivered = 0;
+    let mut first_ids: Vec<Option<SigId>> = Vec::new();
     for (i, (sig, flags)) in cases.iter().enumerate() {
         unsafe { crate::sig::install_raw(*sig, odd_prev as usize, *flags) };
         let tag = 100 + i;
-        if let Err(e) = unsafe { signal_hook_registry::register(*sig, move || ran(tag)) } {
-            wr(fd, &format!("BAD register({}) failed: {}\n", sig, e));
-            continue;
+        match unsafe { signal_hook_registry::register(*sig, move || ran(tag)) } {
+            Ok(id) => first_ids.push(Some(id)),
+            Err(e) => {
+                wr(fd, &format!("BAD register({}) failed: {}\n", sig, e));
+                first_ids.push(None);
+                continue;
+            }
         }
         for round in 0..3 {
             take_runlog();
@@ -449,8 +454,16 @@ fn child_odd_flags(fd: i32) -> i32 {
     // the last action is removed and another one registered: the library's handler is still the disposition (not the
     // foreign one again) and the new action is delivered
     for (i, (sig, flags)) in cases.iter().enumerate() {
-        #[allow(deprecated)]
-        signal_hook_registry::unregister_signal(*sig);
+        // by id for two of the signals, by signal for the other two
+        match first_ids.get(i).cloned().flatten() {
+            Some(id) if i % 2 == 0 => {
+                signal_hook_registry::unregister(id);
+            }
+            _ => {
+                #[allow(deprecated)]
+                signal_hook_registry::unregister_signal(*sig);
+            }
+        }
         match crate::sig::disposition(*sig) {
             Some((h, _)) if h == dispatcher => {}
             other => wr(fd, &format!("BAD after the last action of taken-over signal {} was removed its disposition is {:x?} (dispatcher is {:#x}; previous handler had flags {:#x})\n", sig, other, dispatcher, flags)),
